@@ -25,6 +25,7 @@ PROGRAMS = {
     "ir": "fe001304",
     "clr_halt": "ccfc00de1306",                    # MV (FC),0 ; HALT ; JR start   (a polled, masked request is acknowledged, then the CPU halts)
     "lcd": "083fa800a00008b9a800a000130e",           # MV A,3F ; MV [0A000],A ; MV A,B9 ; MV [0A000],A ; JR start   (display on, page set, VRAM untouched)
+    "zflag": "08017c001306",                         # MV A,1 ; DEC A ; JR start   (Z is set whenever an interrupt arrives)
     "romw": "085aa8000c0ca80010007c00130c",       # MV A,5A ; MV [C0C00],A ; MV [01000],A ; ... stores into the ROM window and the read-only low range
     "rst": "000000ff1306",                           # NOP NOP NOP RESET (-> reset vector -> start)   (timers must keep their boundaries)
     "xram": "085aa8ff7f057c001308",                  # MV A,5A ; MV [57FFF],A ; DEC A ; JR ...   (last byte of a RAM expansion overlay, Python only)
@@ -126,8 +127,11 @@ def monitor(impl, cfg, cname, hist, pre, ev, post, mon, vb: VB, bnds) -> Tuple:
                        f"ISR={isr_post:#04x}: no source is both unmasked and pending, after {hist}", wit)
             if imr_post != (f_imr & 0x7F) and not (depth >= 0 and op_pre == 0xCC):
                 vb.add(sig("master-enable-not-cleared"), f"{impl} {cname}: after delivery IMR={imr_post:#04x}, pushed {f_imr:#04x}", wit)
-            if (f_f & 3) != (pre["regs"]["F"] & 3):
-                vb.add(sig("frame/flags"), f"{impl} {cname}: pushed F={f_f:#04x}, flags before were {pre['regs']['F']:#04x}", wit)
+            # delivery itself does not change the flags, so the pushed byte equals F at handler entry (the Rust machine delivers
+            # after the instruction of this step, the Python machine before it: comparing with F before the step would be wrong)
+            if (f_f & 3) != (post["regs"]["F"] & 3):
+                vb.add(sig("frame/flags"), f"{impl} {cname}: pushed F={f_f:#04x}, flags at handler entry are {post['regs']['F']:#04x} "
+                       f"(before the step {pre['regs']['F']:#04x})", wit)
             if f_pc not in bnds:
                 vb.add(sig("frame/resume-pc"), f"{impl} {cname}: pushed resume PC {f_pc:#x} is not an instruction boundary of the "
                        f"running program, after {hist}", wit)
@@ -339,6 +343,9 @@ def combos_for(impl, thorough, seed):
         if not thorough:
             hands = ["reti", "clr"] + (["nest"] if seed % 2 else ["long"])[:0]
     out = [(p, hn, i, t) for p in progs for hn in hands for i in imrs for t in timers]
+    if impl == "python" and not thorough:
+        # two timers with only one of them unmasked: the enabled request must be taken whichever source fired last
+        out += [(p, "reti", i, TIMERS[7]) for p in ("nop", "zflag") for i in (0x81, 0x82)]
     if seed:
         k = seed % len(out)
         out = out[k:] + out[:k]
